@@ -759,6 +759,8 @@ class Run:
 
     def e_Subscript(self, n: ast.Subscript) -> Any:  # noqa: C901, PLR0911, PLR0912
         base = self.eval(n.value)
+        if isinstance(base, ClassV):
+            return base  # Generic[...] subscription (Stack[Rule | RuleFrame]): the type arguments are not evaluated
         if isinstance(n.slice, ast.Slice):
             if n.slice.step is not None:
                 raise OutOfDialect("slice step", n)
@@ -835,6 +837,13 @@ class Run:
         raise OutOfDialect("generator expression", n)
 
     def e_Dict(self, n: ast.Dict) -> Any:
+        h = getattr(self.spec, "dict_display", None)
+        if h is not None:
+            if any(k is None for k in n.keys):
+                raise OutOfDialect("dict unpacking", n)
+            r = h(self, [(self.eval(k), self.eval(v)) for k, v in zip(n.keys, n.values)], n)
+            if r is not NotImplemented:
+                return r
         if not n.keys:
             return Opaque("emptydict")
         raise OutOfDialect("dict display", n)
